@@ -126,9 +126,10 @@ def native_lib(flavour="plain", hooks=False):
     mine = []
     if flavour == "shim":
         mine = [os.path.join(VERIF, "native", "gomp_shim.c")]
+        extra = [os.path.join(VERIF, "native", "shim_wrap.h")]
     if hooks:
         mine.append(os.path.join(VERIF, "native", "verif_trace.c"))
-    hsh = _hash(sorted(srcs + hdrs), extra=flavour + str(hooks) + "".join(open(m).read() for m in mine))
+    hsh = _hash(sorted(srcs + hdrs), extra=flavour + str(hooks) + "".join(open(m).read() for m in mine + extra))
     name = "nat-%s-%s" % (flavour, hsh)
     dest = os.path.join(CACHE, name)
     lib = os.path.join(dest, "libdd.so")
@@ -137,17 +138,26 @@ def native_lib(flavour="plain", hooks=False):
             os.makedirs(dest, exist_ok=True)
             if flavour == "shim":
                 # compile with -fopenmp (the pragmas become GOMP_* calls) but link WITHOUT libgomp:
-                # the runtime entry points are provided by native/gomp_shim.c
+                # the runtime entry points are provided by native/gomp_shim.c.  dd_dtw_openmp.c additionally
+                # gets native/shim_wrap.h force-included: scheduling points around the kernel calls.  If the
+                # wrapped compilation fails (the file was restructured), fall back to the plain one.
                 objs = []
                 for src in srcs:
                     o = os.path.join(dest, os.path.basename(src) + ".o")
-                    cmd = ["gcc", "-O1", "-g", "-fopenmp", "-fPIC", "-c", "-I" + os.path.join(REPO, CDIR), src, "-o", o]
-                    r = subprocess.run(cmd, capture_output=True, text=True)
+                    base = ["gcc", "-O1", "-g", "-fopenmp", "-fPIC", "-c", "-I" + os.path.join(REPO, CDIR)]
+                    attempts = [base + [src, "-o", o]]
+                    if os.path.basename(src) == "dd_dtw_openmp.c":
+                        attempts.insert(0, base + ["-include", os.path.join(VERIF, "native", "shim_wrap.h"), src, "-o", o])
+                    for cmd in attempts:
+                        r = subprocess.run(cmd, capture_output=True, text=True)
+                        if r.returncode == 0:
+                            break
                     if r.returncode != 0:
                         sys.stderr.write(r.stderr[-4000:])
                         raise RuntimeError("native build failed: " + " ".join(cmd))
                     objs.append(o)
-                cmd = ["gcc", "-O1", "-g", "-fPIC", "-shared", "-o", lib + ".tmp"] + objs + mine + ["-lpthread", "-lm"]
+                cmd = ["gcc", "-O1", "-g", "-fPIC", "-shared", "-Wl,--no-undefined", "-o", lib + ".tmp"] + objs + \
+                    mine + ["-lpthread", "-lm"]
             else:
                 cmd = list(NATIVE_FLAVOURS[flavour])
                 if hooks:
